@@ -97,6 +97,7 @@ package common
 //@   ensures [approval-sig] err == nil ==> SigAt(*result0.Signature, extra, len(extra) - 64)
 //@   ensures [input-kept] forall i int :: 0 <= i && i < len(extra) ==> extra[i] == old(extra[i])
 //@   ensures [reject] err != nil ==> result0 == nil
+//@   assumes [deterministic] err == nil ==> ReqIs(result0, seq(extra), genesis)   -- C11: zz_contracts_c11_verif.go (the parser is a function of its arguments)
 //@   loop 0 invariant len(nodes) * custodianNodeExtraSize == len(nodesExtra) && len(nodesExtra) == len(extra) - 128 && len(extra) >= 2599
 //@   loop 0 invariant forall k int :: {nodes[k]} 0 <= k && k <= rangeindex ==> NodeShape(nodes[k]) && allocated(nodes[k]) && allocated(nodes[k].Extra)
 //@   loop 0 invariant forall k int :: {nodes[k]} 0 <= k && k <= rangeindex ==> NodeKeysParsed(nodes[k]) && (!genesis ==> NodeSigned(nodes[k]))
